@@ -106,15 +106,41 @@ template<typename X, bool tMulti> struct KUSet {
 	}
 };
 
+// ------------------------------------------------------------------------------------------------ the twin's allocator in the fault suites
+
+// std::allocator that throws bad_alloc at the `failAt`-th allocate call after arm() (counted over all rebound copies): the twin is
+// made to fail at the same logical request (the same allocate call of the same container call) at which the pool allocator threw
+struct TwinCtl {
+	static inline long failAt = -1, calls = 0;
+	static void arm(long k) { failAt = k; calls = 0; }
+	static void disarm() { failAt = -1; }
+};
+template<typename T> struct TwinAlloc {
+	typedef T value_type;
+	typedef std::false_type propagate_on_container_copy_assignment;
+	typedef std::true_type propagate_on_container_move_assignment;
+	typedef std::true_type propagate_on_container_swap;
+	typedef std::true_type is_always_equal;
+	TwinAlloc() noexcept {}
+	template<typename U> TwinAlloc(const TwinAlloc<U>&) noexcept {}
+	T* allocate(size_t n) { if (TwinCtl::failAt >= 0 && TwinCtl::calls++ == TwinCtl::failAt) throw std::bad_alloc(); return std::allocator<T>().allocate(n); }
+	void deallocate(T* p, size_t n) noexcept { std::allocator<T>().deallocate(p, n); }
+	template<typename U> bool operator==(const TwinAlloc<U>&) const noexcept { return true; }
+	template<typename U> bool operator!=(const TwinAlloc<U>&) const noexcept { return false; }
+};
+
 // ------------------------------------------------------------------------------------------------ the random histories
 
-template<typename K, typename TCfg, bool traced>
+// `faulty`: element calls, copy construction, copy assignment and the construction of allocator objects are also run with the base
+// allocator armed to throw bad_alloc at one of its next requests (c20_fault2 / c20_fault3); the twins then use TwinAlloc
+template<typename K, typename TCfg, bool traced, bool faulty = false>
 struct World {
+	static_assert(traced || !faulty, "the fault histories need the reporting shell");
 	template<typename T> using A = typename std::conditional<traced, LogA<T, TCfg>, typename TCfg::template Inner<T>>::type;
 	typedef typename K::Value Value;
 	typedef typename K::Key Key;
 	typedef typename K::template Cont<A<Value>> PC;						// the container under test
-	typedef typename K::template Cont<std::allocator<Value>> TC;		// its twin
+	typedef typename K::template Cont<typename std::conditional<faulty, TwinAlloc<Value>, std::allocator<Value>>::type> TC;		// its twin
 	typedef A<int> Handle;
 	static const int E = 4, H = 2;
 
@@ -161,17 +187,20 @@ struct World {
 			for (auto& a : tracer().acts) {
 				std::string b; for (size_t x : a.bufs) { if (!b.empty()) b += ','; b += std::to_string(x); }
 				if (b.empty()) b = "-";
-				if (a.isAlloc) s += fmt(" +%lld:%zu:%zu:%zu:%s", a.id, a.tsize, a.talign, a.n, b.c_str());
+				if (a.failed) s += fmt(" !%zu:%zu:%zu", a.tsize, a.talign, a.n);
+				else if (a.isAlloc) s += fmt(" +%lld:%zu:%zu:%zu:%s", a.id, a.tsize, a.talign, a.n, b.c_str());
 				else s += fmt(" -%lld:%s", a.id, b.c_str());
 			}
 		}
 		return s;
 	}
-	void beginOp(int owner) { if constexpr (traced) { tracer().acts.clear(); tracer().newPools.clear(); tracer().curOwner = owner; } }
+	bool anyFailedAct() const { if constexpr (traced) { for (auto& a : tracer().acts) if (a.failed) return true; } return false; }
+	void beginOp(int owner) { if constexpr (traced) { tracer().acts.clear(); tracer().newPools.clear(); tracer().curOwner = owner; tracer().allocCalls = 0; tracer().failedCall = -1; } }
 	// book-keeping of who holds which block, from the acts of the call just made by container `i`
 	void applyActs(int i) {
 		if constexpr (traced) {
 			for (auto& a : tracer().acts) {
+				if (a.failed) continue;
 				if (a.isAlloc) { if (i >= 0 && i < E) owned[i].insert(a.id); }
 				else {
 					bool found = false;
@@ -287,6 +316,20 @@ struct World {
 		beginOp(i);
 		if (how <= 1 || (how <= 4 && j < 0) || (how >= 5 && h < 0 && j < 0)) {
 			// default construction: an allocator object (for the node type) with a pool of its own
+			if constexpr (faulty) if (rng.chance(1, 3)) {
+				// first an attempt in which allocate_shared (pool_allocator.h:77) throws: no container, nothing changes; the twin's
+				// default construction makes no request at all, so there is nothing to fail there
+				size_t before = arena().live.size();
+				arena().armFail(0);
+				try { pc[i].emplace(); c.fail("harness: default construction did not throw"); } catch (const std::bad_alloc&) {}
+				arena().disarm();
+				if (pc[i] || arena().live.size() != before) c.fail("C20 fault: %s: default construction that threw bad_alloc left a container or %zu -> %zu ledger entries; history: %s", name.c_str(), before, arena().live.size(), tail().c_str());
+				pc[i].reset();
+				c.stats.count("op.construct_default_failed");
+				emit(fmt("newAllocFail %d %zu %zu", i, tracer().failedNewSize, tracer().failedNewAlign));
+				check("failed default construction");
+				beginOp(i);
+			}
 			pc[i].emplace(); tc[i].emplace();
 			c.stats.count("op.construct_default");
 			if constexpr (traced) {
@@ -298,7 +341,50 @@ struct World {
 		} else if (how == 2 && j >= 0) {
 			// copy construction
 			const void* srcPool = poolOfCont(j);
+			if constexpr (faulty) {
+				// the base allocator throws at one of its next requests: request 0 is the control block of the new allocator object inside
+				// select_on_container_copy_construction (must be a catchable bad_alloc: regression test of the repaired noexcept), the next
+				// ones are buffers of the new pool; the twin fails at the same allocate call
+				size_t before = arena().live.size();
+				bool armed = rng.chance(3, 5);
+				if (armed) arena().armFail((long)rng.below(3));
+				bool threwP = false, threwT = false;
+				try { pc[i].emplace(*pc[j]); } catch (const std::bad_alloc&) { threwP = true; }
+				arena().disarm();
+				if (threwP && tracer().newPools.empty()) {
+					// thrown inside select_on_container_copy_construction: no pool, no container, nothing changed; the std::allocator twin makes
+					// no request there, so there is nothing for it to fail at: it is not constructed either
+					pc[i].reset();
+					std::string a = actsStr();
+					if (!a.empty() || arena().live.size() != before || poolOfCont(j) != srcPool)
+						c.fail("C20 fault: %s: copy construction %d(copy of %d) that threw inside select_on_container_copy_construction allocated / freed (%s) or changed the ledger (%zu -> %zu) or the pool of its source; history: %s",
+							name.c_str(), i, j, a.c_str(), before, arena().live.size(), tail().c_str());
+					c.stats.count("op.construct_copy_failed_inside_select_on_copy");
+					emit(fmt("copyConstructNewFail %d %d %zu %zu", i, j, tracer().failedNewSize, tracer().failedNewAlign));
+					check("copy construction that threw inside select_on_container_copy_construction");
+					return;
+				}
+				TwinCtl::arm(tracer().failedCall);
+				try { tc[i].emplace(*tc[j]); } catch (const std::bad_alloc&) { threwT = true; }
+				TwinCtl::disarm();
+				if (threwP != threwT) c.fail("C20 twin: %s: copy construction %d(copy of %d): pool container %s, twin %s (allocate call #%d failed); history: %s", name.c_str(), i, j,
+					threwP ? "threw bad_alloc" : "did not throw", threwT ? "threw bad_alloc" : "did not throw", tracer().failedCall, tail().c_str());
+				if (threwP) {
+					pc[i].reset(); tc[i].reset();
+					auto& np = tracer().newPools;
+					std::string a = actsStr(); applyActs(i);
+					if (!owned[i].empty()) { c.fail("C20 leak: %s: copy construction that threw bad_alloc left %zu blocks; history: %s", name.c_str(), owned[i].size(), tail().c_str()); owned[i].clear(); }
+					if (arena().live.size() != before) c.fail("C20 leak: %s: copy construction that threw bad_alloc changed the ledger from %zu to %zu entries; history: %s", name.c_str(), before, arena().live.size(), tail().c_str());
+					if (poolOfCont(j) != srcPool) c.fail("C20 copy-independent: %s: failed copy construction changed the pool of its source", name.c_str());
+					c.stats.count("op.construct_copy_failed");
+					if (np.size() != 1) c.fail("C20 construct: %s failed copy construction created %zu pools", name.c_str(), np.size());
+					else emit(fmt("copyConstructF %d %d %zu %zu %lld%s", i, j, np[0].tsize, np[0].talign, np[0].cb, a.c_str()));
+					check("failed copy construction");
+					return;
+				}
+			} else {
 			pc[i].emplace(*pc[j]); tc[i].emplace(*tc[j]);
+			}
 			c.stats.count("op.construct_copy");
 			if (poolOfCont(i) == srcPool || poolOfCont(j) != srcPool)
 				c.fail("C20 copy-independent: %s: Container %d(copy of %d) %s; history: %s", name.c_str(), i, j,
@@ -367,6 +453,18 @@ struct World {
 		if (hEmpty >= 0 && how <= 1) {
 			int j = pickFull();
 			if (how == 0 || (j < 0 && hFull < 0)) {
+				if constexpr (faulty) if (rng.chance(1, 3)) {
+					size_t before = arena().live.size();
+					arena().armFail(0);
+					try { hd[hEmpty].emplace(BaseA(&arena())); c.fail("harness: constructor did not throw"); } catch (const std::bad_alloc&) {}
+					arena().disarm();
+					if (hd[hEmpty] || arena().live.size() != before) c.fail("C20 fault: %s: constructor that threw bad_alloc left an allocator object or changed the ledger; history: %s", name.c_str(), tail().c_str());
+					hd[hEmpty].reset();
+					c.stats.count("op.allocator_object_new_failed");
+					emit(fmt("newAllocFail %d %zu %zu", 100 + hEmpty, tracer().failedNewSize, tracer().failedNewAlign));
+					check("failed allocator object construction");
+					beginOp(-1);
+				}
 				hd[hEmpty].emplace(BaseA(&arena()));
 				c.stats.count("op.allocator_object_new");
 				if constexpr (traced) { auto& np = tracer().newPools; if (np.size() == 1) emit(fmt("newAlloc %d %zu %zu %lld", 100 + hEmpty, np[0].tsize, np[0].talign, np[0].cb)); }
@@ -401,7 +499,37 @@ struct World {
 	}
 
 	// both containers get the same call; `f` is generic
+	// the call with the base allocator armed: it throws bad_alloc at one of its next three requests (if the call makes that many);
+	// the twin's allocator then throws at the same allocate call of the same container call.  Only what the property states is
+	// compared: both throw or neither, equal answers, equal contents afterwards (check), and the pool's own bookkeeping.
+	template<typename F> void bothFault(int i, const char* opName, F f) {
+		uint32_t s0 = serial;
+		beginOp(i);
+		arena().armFail((long)rng.below(3));
+		bool threwP = false, threwT = false; uint64_t ra = 0, rb = 0;
+		try { ra = f(*pc[i]); } catch (const std::bad_alloc&) { threwP = true; }
+		arena().disarm();
+		std::string a = actsStr();
+		bool failedAct = anyFailedAct();
+		int failedCall = tracer().failedCall;
+		applyActs(i);
+		uint32_t s1 = serial; serial = s0;
+		TwinCtl::arm(failedCall);
+		try { rb = f(*tc[i]); } catch (const std::bad_alloc&) { threwT = true; }
+		TwinCtl::disarm();
+		if (serial < s1) serial = s1;
+		if (threwP != threwT) c.fail("C20 twin: %s: %s on container %d: pool container %s, twin %s (allocate call #%d of the call failed); history: %s", name.c_str(), opName, i,
+			threwP ? "threw bad_alloc" : "did not throw", threwT ? "threw bad_alloc" : "did not throw", failedCall, tail().c_str());
+		else if (!threwP && ra != rb) c.fail("C20 twin: %s: %s on container %d answered %llu, the twin %llu; history: %s", name.c_str(), opName, i,
+			(unsigned long long)ra, (unsigned long long)rb, tail().c_str());
+		emit(fmt("%s %d%s", failedAct ? "mutateF" : "mutate", i, a.c_str()));
+		c.stats.count(std::string(failedAct ? "opfail." : "op.") + opName);
+		if (failedAct && !threwP) c.stats.count("fault.bad_alloc_handled_inside_the_container_call");
+		check(opName);
+	}
+
 	template<typename F> void both(int i, const char* opName, F f) {
+		if constexpr (faulty) if (rng.chance(2, 5)) { bothFault(i, opName, f); return; }
 		uint32_t s0 = serial;
 		beginOp(i);
 		uint64_t ra = f(*pc[i]);
@@ -499,11 +627,26 @@ struct World {
 		if (r < 5) {
 			// copy assignment: POCCA is false, the target keeps its pool
 			beginOp(i);
+			bool failedAct = false;
+			if constexpr (faulty) {
+				bool armed = rng.chance(1, 2);
+				if (armed) arena().armFail((long)rng.below(3));
+				bool threwP = false, threwT = false;
+				try { *pc[i] = *pc[j]; } catch (const std::bad_alloc&) { threwP = true; }
+				arena().disarm();
+				failedAct = anyFailedAct();
+				TwinCtl::arm(tracer().failedCall);
+				try { *tc[i] = *tc[j]; } catch (const std::bad_alloc&) { threwT = true; }
+				TwinCtl::disarm();
+				if (threwP != threwT) c.fail("C20 twin: %s: %d = %d: pool container %s, twin %s (allocate call #%d failed); history: %s", name.c_str(), i, j,
+					threwP ? "threw bad_alloc" : "did not throw", threwT ? "threw bad_alloc" : "did not throw", tracer().failedCall, tail().c_str());
+			} else {
 			*pc[i] = *pc[j]; *tc[i] = *tc[j];
+			}
 			std::string a = actsStr(); applyActs(i);
-			c.stats.count("op.copy_assign");
+			c.stats.count(failedAct ? "opfail.copy_assign" : "op.copy_assign");
 			if (poolOfCont(i) != pi || poolOfCont(j) != pj) c.fail("C20 copy-independent: %s: %d = %d changed a pool; history: %s", name.c_str(), i, j, tail().c_str());
-			emit(fmt("copyAssign %d %d%s", i, j, a.c_str()));
+			emit(fmt("%s %d %d%s", failedAct ? "copyAssignF" : "copyAssign", i, j, a.c_str()));
 			check("copy assignment");
 		} else {
 			// move assignment: POCMA is true, the target takes the source's pool and nodes
@@ -658,6 +801,23 @@ void runTraced(Ctx& c, Rng& rng, const std::string& tag, unsigned steps) {
 	tracer().trace = nullptr;
 }
 
+// the same with a failing base allocator (World<…, faulty = true>)
+template<typename K, typename TCfg>
+void runTracedF(Ctx& c, Rng& rng, const std::string& tag, unsigned steps) {
+	std::string base = tag;
+	Suite tr(c, base + ".trace", TCfg::modelLine("trace"));
+	Suite co(c, base + ".cont", TCfg::modelLine("cont"));
+	std::string name = fmt("%s %s N=%zu C=%zu base allocator throws", base.c_str(), K::name().c_str(), TCfg::N, TCfg::C);
+	tracer().reset(c, &tr, name);
+	{
+		World<K, TCfg, true, true> w(c, rng, &co, name);
+		w.run(steps);
+		c.stats.nontrivial(name);
+		c.stats.sample(fmt("%s: %s", name.c_str(), w.tail().c_str()));
+	}
+	tracer().trace = nullptr;
+}
+
 template<typename K, typename TCfg>
 void runPlain(Ctx& c, Rng& rng, const std::string& tag, unsigned steps) {
 	std::string name = fmt("%s(plain) %s N=%zu C=%zu", tag.c_str(), K::name().c_str(), TCfg::N, TCfg::C);
@@ -673,6 +833,17 @@ inline void dumpTracerStats(Ctx& c) {
 	c.stats.count("pool.reparameterised", t.reparams); c.stats.count("pool.died", t.poolDeaths);
 	c.stats.count("pool.buffers_obtained", t.buffersGot); c.stats.count("pool.buffers_returned", t.buffersBack); c.stats.count("pool.dealloc_with_flush", t.cacheFlushes);
 	c.stats.count("base.allocate", arena().allocs); c.stats.count("base.deallocate", arena().frees);
+	// fault layer and over-aligned value types (zero in the suites that use neither)
+	c.stats.count("fault.base_allocator_threw", arena().faultsFired); c.stats.count("fault.inside_select_on_copy_caught", t.selectOnCopyCaught);
+	c.stats.count("fault.allocate_failed_pool_path", t.failedAllocsPool); c.stats.count("fault.allocate_failed_raw_path", t.failedAllocsRaw);
+	c.stats.count("fault.allocate_failed_after_reparameterisation", t.failedAllocsReparam); c.stats.count("fault.constructor_failed", t.failedNews);
+	c.stats.count("overaligned.allocations", t.overalignedAllocs); c.stats.count("overaligned.pointer_not_aligned_for_value_type", t.overalignedMisaligned);
+	// open known finding F29, once per run, with the concrete numbers (any misalignment below min(alignof(T), maxAlignment) is an ordinary FAIL, see LogA::allocate)
+	if (t.overalignedMisaligned != 0)
+		c.fail("C20 known-F29 overaligned-misaligned: %llu of %llu pointers returned by unsynchronized_pool_allocator::allocate for value types with alignof > %zu "
+			"(Obj 64 bytes alignas(32), 32 bytes alignas(32), 128 bytes alignas(64)) are not aligned for the type, only to %zu; first: %s",
+			(unsigned long long)t.overalignedMisaligned, (unsigned long long)t.overalignedAllocs, (size_t)momo::internal::UIntConst::maxAlignment,
+			(size_t)momo::internal::UIntConst::maxAlignment, t.firstMisaligned.c_str());
 }
 
 } // namespace c20
